@@ -39,7 +39,7 @@ def pairs(term):
 
 
 def script_of(h):
-    return {k: h[k] for k in ("kind", "n", "faulty", "ops")}
+    return {k: h[k] for k in ("kind", "n", "faulty", "ops", "nomsg", "fresh") if k in h}
 
 
 def classify_hit(h, idx):
@@ -53,6 +53,10 @@ def classify_hit(h, idx):
             return "F8:relay-delivered", ("member %s delivered (sender %s, id %s, payload %s) on signatures that were made for another "
                                           "broadcaster (or for none): a fully signed message re-sent by another member is delivered as that member's"
                                           % (m.group(2), q, m.group(4), m.group(5)))
+        slots = re.findall(r"(?:Sig (\d+)%nat|Junk)", m.group(6))
+        if any(s != "" and int(s) != i for i, s in enumerate(slots)):
+            return "delivery:signature-in-wrong-slot", ("member %s delivered (sender %s, id %s, payload %s) on a signature list in which some slot i does not hold member i's signature "
+                                                         "(the receiver's table of member keys is not the cluster's): %s" % (m.group(2), q, m.group(4), m.group(5), m.group(6)[:400]))
         want = "(%s, Some %s%%nat, %s, %s)" % (m.group(1), q, m.group(4), m.group(5))
         covers = re.findall(r"Sig \d+%nat (\(\d+, (?:None|Some \d+%nat), \d+, \(\d+, \d+\)\))", m.group(6))
         if [c for c in covers if c != want] or "Junk" in m.group(6):
@@ -127,7 +131,7 @@ def main():
             notes.append("script %d: %s" % (h["id"], x))
     R.coverage["distinct_nontrivial"] = len(seen)
     R.coverage["rule"] = ("scripts over 3..4 (quick) / 3..6 (thorough) libp2p hosts x 2 sessions + an outsider: corpus (F8 relay, pure relay, two broadcasters under one id, "
-                          "the repo's own test sequence, cross-session / cross-id replays, outsider), replay-after-accept (accepted signature lists re-sent to the same and other receivers with another payload / the same payload / permuted / duplicated / under another id / in the other session, several rounds) and random compositions of honest broadcasts, complete broadcasts by a scripted "
+                          "the repo's own test sequence, cross-session / cross-id replays, outsider), replay-after-accept (accepted signature lists re-sent to the same and other receivers with another payload / the same payload / permuted / duplicated / under another id / in the other session, several rounds), bad-responder (own hosts; the scripted member refuses the msg protocol / answers honest clients' signature requests with a wrong id, empty, short, unrelated or junk signature, late or not at all; then equivocation with crafted lists carrying its signature in foreign slots, relays, and honest broadcasts again) and random compositions of honest broadcasts, complete broadcasts by a scripted "
                           "member with withholding, per-receiver equivocation, signature-list subsets/permutations/substitutions/duplications/wrong lengths, relays, unregistered ids, "
                           "late registration, malformed payloads; race = concurrent conflicting requests over 150 (quick) / 300 (thorough) registered ids per cluster size; non-trivial = at least one delivery and at least one refusal observed; distinct by hash of the observed label sequence")
     R.coverage["input_distribution"] = {"kinds": dict(kinds), "cluster_sizes": dict(sizes), "scripted_members": dict(nfaulty),
